@@ -903,6 +903,130 @@ def sp_tie(g, tips):
     return len(leaves) >= 3 or sum(1 for v in leaves if g.vbk[v]["height"] == hmax) >= 2
 
 
+def c01_twin_tail(g, sc, r, spf, cands=None, n_cmp=4):
+    """twin A B (fresh instance shown only A's active chain), then the comparisons that must agree; with spf the
+    comparisons are guarded by the SP carve-out (evaluated later on the tips the harness reports)"""
+    pre = "h%d" % len(sc.gens)
+
+    def both(what, *words, guard=None):
+        ia = len(g.lines) + 1
+        g.emit("on A " + " ".join(words))
+        g.emit("on B " + " ".join(words))
+        sc.equal.append(("%s_c%d" % (pre, ia), "%s_c%d" % (pre, ia + 1), what))
+        if spf:
+            sc.guard["%s_c%d" % (pre, ia)] = (pre, guard)
+
+    def tipline():
+        g.emit("on A tip")
+        return "%s_c%d" % (pre, len(g.lines))
+
+    g.emit("twin A B", "ok")
+    t0 = tipline()
+    both("POP state after the history vs fresh instance shown only the active chain", "obs", "pop", guard=(t0, None))
+    both("payouts", "payouttip", guard=(t0, None))
+    ids = sorted(g.alt, key=lambda a: int(a[1:]))
+    for _ in range(n_cmp):
+        c = r.choice(cands) if cands and not r.chance(1, 4) else r.choice(ids)
+        g.emit("show A %s" % c)
+        g.emit("show B %s" % c)
+        t1 = tipline()
+        both("comparePopScore verdict against candidate " + c, "cmp", c, guard=(t1, c))
+        t2 = tipline()
+        both("POP state after comparing with " + c, "obs", "pop", guard=(t2, None))
+        both("payouts", "payouttip", guard=(t2, None))
+
+
+def gen_c01_vtbfork(ctx, sc, n_hist, steps):
+    """two competing VBK forks of DIFFERENT length whose winner is decided by one VTB: fork B is longer (wins on
+    work), fork A is shorter but one of its non-leaf blocks contains a VTB endorsing a VBK keystone, published in BTC,
+    so A wins POP fork resolution whenever that VTB is applied. ALT block x1 delivers both forks, its child x2 the VTB
+    (or fork A and the VTB together); x2 and its relatives are activated, abandoned and re-activated between random
+    steps. No tie, two forks: the VBK best chain is a function of the ALT active chain alone, so the twin comparison
+    of the POP projection (incl. `VBK best`) applies in full (the carve-out detection stays on)."""
+    r = ctx.rng
+    for _ in range(n_hist):
+        cfg = small_cfg(r)
+        cfg.pop("vbk_settle", None)
+        ki = r.choice([2, 2, 3, 3, 4])
+        cfg["vbk_ki"] = ki
+        if r.chance(1, 2):
+            cfg["vbk_fd"] = r.range(2, 6)
+        g = SmGen(r.fork(), cfg)
+        g.no_vtb = True
+        destructive = r.chance(1, 2)
+        H = SmHistory(g, planted=0, destructive=destructive)
+        a = "a0"
+        for _ in range(r.below(3)):
+            a = g.build_block(a, n_atv=r.below(2), n_extra=r.below(3))
+        F = max(g.alt[a]["kv"], key=lambda v: (g.vbk[v]["height"], -int(v[1:])))
+        hF = g.vbk[F]["height"]
+        n = r.range(ki + 2, ki + 4)
+        # endorsed block: a keystone of A AFTER the fork point (only those count); containing block: later, mostly not
+        # the leaf of A
+        ks = [i for i in range(1, n - 1) if (hF + i) % ki == 0]
+        ei = r.choice(ks)
+        cj = r.range(ei + 1, n - 1) if not r.chance(1, 6) else n
+        A = []
+        v = F
+        for i in range(1, n + 1):
+            if i == cj:
+                w = g.make_vtb(A[ei - 1], g.last_btc(a, []), vparent=v)
+                v = g.vtb[w]["containing"]
+            else:
+                v = g.mine_vbk(parent=v)
+            A.append(v)
+        B = []
+        v = F
+        for i in range(n + r.range(1, 3)):
+            v = g.mine_vbk(parent=v)
+            B.append(v)
+        if r.chance(1, 2):
+            order = A + B
+        else:
+            order = sorted(A + B, key=lambda x: (g.vbk[x]["height"], int(x[1:])))
+        x1 = g.new_alt(a)
+        x2 = g.new_alt(x1)
+        if r.chance(2, 3):
+            g.set_pd(x1, ctx=order)
+            g.set_pd(x2, vtbs=[w], ctx=[])
+        else:
+            g.set_pd(x1, ctx=B)
+            g.set_pd(x2, vtbs=[w], ctx=A)
+        g.vtip = B[-1]        # later VBK blocks (ATVs, context) extend the longer fork: lengths never tie
+        y2 = g.build_block(x1, n_atv=r.below(2), n_extra=r.below(2))
+        # descendants of the VTB-carrying block deliver more VBK blocks (fork resolution runs again on top of the VTB)
+        x3 = g.build_block(x2, n_atv=r.below(2), n_extra=r.below(3))
+        x4 = g.build_block(x3, n_atv=r.below(2), n_extra=r.below(2))
+        key = [a, x1, x2, y2, x3, x4]
+        H.show(x4, order=r.choice(["inorder", "random"]))
+        H.show(y2)
+        H.on("set", r.choice([x2, x3, x4]))
+        for i in range(steps):
+            k = r.below(10)
+            if k < 5:
+                H.on(r.choice(["set", "set", "cmp"]), r.choice(key))
+            else:
+                H.step()
+        # several twin rounds: the history instance re-applies the VTB-carrying block, the fresh twin sees it first
+        # through show + comparePopScore (and the other way round)
+        # The route to the final chain varies: in one jump from far below (x1 and x2 applied inside ONE deferred fork
+        # resolution scope), from the sibling, or block by block - the twin always connects block by block.
+        for rnd in range(3):
+            route = r.below(3)
+            tgt = r.choice(key)
+            if route == 0:
+                H.on("set", r.choice(["a0", a]))
+                tgt = r.choice([x2, x3, x4, y2])
+            elif route == 1:
+                H.on("set", r.choice([y2, x1]))
+            H.on(r.choice(["set", "set", "cmp"]), tgt)
+            c01_twin_tail(g, sc, r, True, cands=key, n_cmp=2)
+            sc.bump("c01_twin_rounds_vtb_fork")
+        sc.add(g, modelled=False)
+        sc.bump("c01_histories")
+        sc.bump("c01_vtb_decided_fork_histories")
+
+
 def gen_c01(ctx, sc, n_hist, steps, sp_forks=0):
     """sp_forks: one history out of `sp_forks` (0 = none) has two competing VBK forks (ATVs only); the comparisons of
     such a history are guarded by the carve-out of the property text (sc.guard, evaluated on the tips reported by A)"""
@@ -937,34 +1061,7 @@ def gen_c01(ctx, sc, n_hist, steps, sp_forks=0):
                 H.on("sm")
         if fork_tips is not None:
             fork_tips[cur] = g.vtip
-        pre = "h%d" % len(sc.gens)
-
-        def both(what, *words, guard=None):
-            ia = len(g.lines) + 1
-            g.emit("on A " + " ".join(words))
-            g.emit("on B " + " ".join(words))
-            sc.equal.append(("%s_c%d" % (pre, ia), "%s_c%d" % (pre, ia + 1), what))
-            if spf:
-                sc.guard["%s_c%d" % (pre, ia)] = (pre, guard)
-
-        def tipline():
-            g.emit("on A tip")
-            return "%s_c%d" % (pre, len(g.lines))
-
-        g.emit("twin A B", "ok")
-        t0 = tipline()
-        both("POP state after the history vs fresh instance shown only the active chain", "obs", "pop", guard=(t0, None))
-        both("payouts", "payouttip", guard=(t0, None))
-        ids = sorted(g.alt, key=lambda a: int(a[1:]))
-        for _ in range(4):
-            c = r.choice(ids)
-            g.emit("show A %s" % c)
-            g.emit("show B %s" % c)
-            t1 = tipline()
-            both("comparePopScore verdict against candidate " + c, "cmp", c, guard=(t1, c))
-            t2 = tipline()
-            both("POP state after comparing with " + c, "obs", "pop", guard=(t2, None))
-            both("payouts", "payouttip", guard=(t2, None))
+        c01_twin_tail(g, sc, r, spf)
         sc.add(g, modelled=False)
         sc.bump("c01_histories")
 
@@ -1063,9 +1160,11 @@ def run_check(ctx, pid):
         elif pid == "C01":
             if quick:
                 gen_c01(ctx, sc, 60, 36)
+                gen_c01_vtbfork(ctx, sc, 24, 12)
                 gen_corr_honest(ctx, sc, 20, 30)
             else:
                 gen_c01(ctx, sc, 1500, 60, sp_forks=5)
+                gen_c01_vtbfork(ctx, sc, 300, 30)
                 gen_corr_honest(ctx, sc, 300, 50)
     tgen = time.time() - t0
     lines = sc.lines
